@@ -89,7 +89,7 @@ def gen_case(r, k):
     tot = np.zeros((ny, nx), bool) | (mask if mask is not None else False) | (cov if cov is not None else False)
     if tot.mean() > 0.5 and r.random() < 0.8:               # mostly-masked images leave no usable box: keep a few only
         mask, cov = (None if r.random() < 0.5 else ~tot if (~tot).mean() < 0.5 else None), None
-    pct = r.choice([0.0, 10.0, 10.0, 25.0, 50.0, 75.0, 90.0, 100.0, 100.0])
+    pct = r.choice([0.0, 10.0, 10.0, 25.0, 50.0, 75.0, 90.0, 100.0, 100.0, 70.0, 30.0, 60.0, 80.0])
     sigma = r.choice([None, 3.0, 3.0, 2.0, 1.5, 2.5])
     maxiters = r.choice([1, 2, 3, 10, 10])
     est = r.choice(['mean', 'median', 'sextractor', 'sextractor'])
@@ -156,8 +156,9 @@ def correspondence(rep, r, ncases):
                  f":{'excl' if excluded_any else 'full'}",
                  sample={'shape': [c['ny'], c['nx']], 'box': [c['by'], c['bx']], 'pct': c['pct']})
         if thr_f != float(thr_q) and thr_q.denominator == 1:
-            rep.count('skipped:threshold-rounding')
-            continue
+            # (1 - p/100) * npix is inexact here although the threshold is an integer: a box with exactly p percent of its pixels
+            # masked must still be included (defect F41, fixed) - these cases are compared like all others
+            rep.count('integer-threshold-with-inexact-float-formula')
         for bn_on in (True, False):
             with bottleneck(bn_on) as active:
                 if not active:
